@@ -33,7 +33,7 @@ func c19Ctx() gctx {
 		{"ev", gStr("")}, {"nil1", gNil()}, {"pv", gStr("!")}, {"ps", gStr("a")}, {"pn", gInt(8)}, {"sl", gStr(":2")}, {"bv", gBool(true)}}
 }
 
-var c19Values = []string{"sv", "nv", "fv", "lv", "ev", "nil1", "\"lit a\"", "42", "bv"}
+var c19Values = []string{"sv", "nv", "fv", "lv", "ev", "nil1", "\"lit a\"", "42", "bv", "-5", "-42"}
 
 func evalParam(src string, ctx pongo2.Context) *pongo2.Value {
 	if src == "" {
@@ -71,7 +71,10 @@ func runC19(r *run) {
 				chain = append(chain, s)
 			}
 			v := c19Values[g.intn(len(c19Values))]
-			pos := g.intn(9)
+			pos := g.intn(10)
+			if pos == 9 && k == 0 {
+				pos = 0 // the filter tag needs a chain
+			}
 			emit(caseT{"chain", append(w.args("", c19Ctx()), "-", "-", hx(v), hx(strings.Join(chain, "|")), fmt.Sprint(pos))})
 		}
 		// unknown names
@@ -107,6 +110,11 @@ func c19Templates(pos int, expr string) (string, string, bool) {
 		return "{{ 1 + " + expr + " }}", "{{ 1 + rv }}", true
 	}
 	return "{{ lv[" + expr + "] }}", "{{ lv[rv] }}", true
+}
+
+// the filter tag: the chain applied to the rendered body
+func c19FilterTag(v, chain string) string {
+	return "{% filter " + chain + " %}{{ " + v + " }}{% endfilter %}"
 }
 
 func execC19(r *run, c caseT) {
@@ -156,6 +164,15 @@ func execC19(r *run, c caseT) {
 		expr += "|" + chainS
 	}
 	src, ref, _ := c19Templates(pos, expr)
+	neg := strings.HasPrefix(v, "-")
+	if neg {
+		// a filter binds tighter than the unary minus: -5|f is -(5|f)
+		ref = strings.Replace(ref, "rv", "-rv", 1)
+	}
+	if pos == 9 {
+		src = c19FilterTag(v, chainS)
+		ref = "{% autoescape off %}{{ rv }}{% endautoescape %}"
+	}
 	o, _ := w.render(src, false, ctx)
 	// re-emit as a plain render case so that the model runs the same template
 	args := w.args(src, ctx)
@@ -173,10 +190,20 @@ func execC19(r *run, c caseT) {
 	switch {
 	case v[0] == '"':
 		cur = pongo2.AsValue(v[1 : len(v)-1])
-	case v == "42":
+	case v == "42" || v == "-42":
 		cur = pongo2.AsValue(42)
+	case v == "-5":
+		cur = pongo2.AsValue(5)
 	default:
 		cur = pongo2.AsValue(gc[v])
+	}
+	if pos == 9 {
+		// the body as it renders on its own is what the chain is applied to
+		bo, _ := w.render("{{ "+v+" }}", false, ctx)
+		if bo.err != nil || bo.panicked != nil {
+			return
+		}
+		cur = pongo2.AsValue(bo.out)
 	}
 	failed := false
 	usesSafe := false
@@ -201,7 +228,7 @@ func execC19(r *run, c caseT) {
 		r.nontrivial(c.args[9] + c.args[10] + c.args[11])
 	}
 	if failed {
-		if o.obs != "xerr" {
+		if o.obs != "xerr" && !(neg && o.obs == "cerr") {
 			r.reject(id, "a filter error in the chain did not surface as an execution error", map[string]any{"template": src, "observed": o.obs})
 		}
 		return
@@ -213,14 +240,17 @@ func execC19(r *run, c caseT) {
 	}
 	b := w.build()
 	rt, err := b.set.FromString(ref)
-	must(err)
-	want, xerr, pp := executeIn(rt, rctx)
-	if pp != nil {
-		return
-	}
 	wobs := "xerr"
-	if xerr == nil {
-		wobs = obsOK(want)
+	if err != nil {
+		wobs = "cerr" // e.g. a sign directly after a binary operator: invalid in both forms
+	} else {
+		want, xerr, pp := executeIn(rt, rctx)
+		if pp != nil {
+			return
+		}
+		if xerr == nil {
+			wobs = obsOK(want)
+		}
 	}
 	if o.obs != wobs {
 		r.reject(id, "the filter chain in the template does not equal the composition of ApplyFilter calls", map[string]any{"template": src, "observed": o.obs, "expected": wobs})
